@@ -580,6 +580,10 @@ func runShared(c *Ctx) {
 					counts["append-fresh"]++
 					continue
 				}
+				if capLimited(w.target) {
+					counts["append-cap-limited"]++
+					continue
+				}
 				// the slice value itself may be a local accumulator (phi of nil/append results)
 				if localAccumulator(w.target) {
 					counts["append-local"]++
